@@ -34,6 +34,7 @@ var cliFiles = map[string]string{
 	"com.nw":        cliCom,
 	"multi.nw":      cliT5 + cliT5b + cliT5c,
 	"boot.nw":       cliT5 + cliT5b + cliT5 + cliT5c,
+	"multi8.nw":     cliT8 + cliT8 + "(((A:1,B:1)0.8:1,(C:1,D:1)0.6:1)0.9:1,((E:1,G:1)0.7:1,(F:1,H:1)0.5:1)0.4:1,I:2);\n",
 	"states.txt":    "A,x\nB,x\nC,y\nD,y\nE,x\n",
 	"states6.txt":   "A,x\nB,y\nC,z\nD,y\nE,x\nF,z\n",
 	"al.fa":         ">A\nACGT\n>B\nACGA\n>C\nTCGA\n>D\nTCGN\n>E\nACRT\n",
@@ -99,6 +100,8 @@ func cliTable() []cliEntry {
 		cliE("compute-bipartitiontree", "compute bipartitiontree -i @/t.nw A B"),
 		cliE("compute-consensus", "compute consensus -i @/multi.nw -f 0.5"),
 		cliE("compute-consensus-default", "compute consensus -i @/multi.nw"),
+		cliE("compute-consensus-several-splits", "compute consensus -i @/multi8.nw -f 0.5"), // four retained bipartitions: their insertion order shows
+		cliE("compute-consensus-strict-several-splits", "compute consensus -i @/multi8.nw -f 1"),
 		cliE("compute-edgetrees", "compute edgetrees -i @/t.nw"),
 		cliE("compute-mutations", "compute mutations -i @/named.nw -a @/alanc.fa"),
 		cliE("compute-mutations-eems", "compute mutations -i @/named.nw -a @/alanc.fa --eems"),
@@ -186,5 +189,14 @@ func cliTable() []cliEntry {
 		cliEntry{Name: "stats-nexus", Args: strings.Fields("stats -i @/t.nx --format nexus"), Files: cliFiles},
 		cliEntry{Name: "compare-trees-threads", Args: strings.Fields("compare trees -i @/t.nw -c @/multi.nw -t 2"), Files: cliFiles},
 	)
+	// inside a pipe: every option left out, the tree comes on standard input
+	for _, line := range []string{"resolve", "unroot", "stats edges", "stats nodes", "stats tips", "stats rooted", "stats splits", "reformat nexus", "reformat newick", "reformat phyloxml",
+		"brlen clear", "support clear", "comment clear", "rotate sort", "labels", "collapse single", "collapse length", "collapse support", "collapse depth", "draw text", "matrix", "ltt", "compute edgetrees", "compute bipartitiontree A B"} {
+		name := strings.ReplaceAll(line, " ", "-") + "-pipe"
+		if line == "resolve" {
+			name += "-noseed"
+		}
+		t = append(t, cliEntry{Name: name, Args: strings.Fields(line), Stdin: cliPoly, Files: cliFiles})
+	}
 	return t
 }
